@@ -31,7 +31,13 @@ fn check_forest(levels: &[u16], vis: &dyn Fn(usize) -> bool, sample_only: bool, 
     let s = forest_sprite(levels, vis, image_parents);
     let mut plan = Plan::plain();
     plan.compress = 0;
-    let enc = encode(&s, &plan);
+    let mut enc = encode(&s, &plan);
+    // a third of the forests carry non-zero values in the cels' reserved / z-index bytes: the marks do not overlap,
+    // so the expected frame is the same whether a reader ignores those bytes or reorders the cels by them
+    let hz = levels.iter().enumerate().fold(levels.len() as u64, |h, (i, l)| crate::encode::mix(h, (*l as u64) << 1 | vis(i) as u64));
+    if hz % 3 == 0 {
+        crate::encode::junk_zindex(&mut enc, &mut crate::encode::Rng(hz));
+    }
     let f = AsepriteFile::read(&enc.bytes[..]).map_err(|e| Failure::new("load-error", format!("forest failed to load: {}", e)))?;
     let n = levels.len();
     let step = if sample_only { (n / 200).max(1) } else { 1 };
